@@ -40,7 +40,7 @@ def required(tier):
             "post:reverse_cigar", "collapse_forward", "collapse_reverse_strand_flip",
             "multi_interval", "merged_3plus_fwd", "merged_3plus_rev", "haplotype_separated",
             "mixed_orientation", "revisit", "overlap_case1", "overlap_case2", "overlap_case3",
-            "to_unstable_bare_minus", "records_u2s", "records_s2u"]
+            "to_unstable_bare_minus", "records_u2s", "records_s2u", "stdout_output_runs"]
 
 
 def setup(ctx):
@@ -118,7 +118,14 @@ def run_case(ctx, rng, index, casedir):
     sigs = []
     # unstable -> stable
     out_s = os.path.join(casedir, "stable.gaf")
-    o = run_cli(["view", gaf_in, "-g", gpath, "-f", "stable", "-o", out_s])
+    if rng.random() < 0.25:  # default output: stdout
+        o = run_cli(["view", gaf_in, "-g", gpath, "-f", "stable"])
+        if o.ok:
+            with open(out_s, "w") as f:
+                f.write(o.stdout)
+        sit["stdout_output_runs"] += 1
+    else:
+        o = run_cli(["view", gaf_in, "-g", gpath, "-f", "stable", "-o", out_s])
     outcomes = collections.Counter({f"u2s:{o.kind}": 1})
     stable_recs = []
     if not o.ok:
